@@ -350,6 +350,11 @@ def _b_any(xs):
 
 
 def _b_isinstance(x, cls):
+    _map = {_b_int: int, _b_float: float, _b_bool: bool, _b_list: list}
+    if isinstance(cls, tuple):
+        cls = tuple(_map.get(k, k) if callable(k) and not isinstance(k, type) else k for k in cls)
+    elif not isinstance(cls, type) and callable(cls):
+        cls = _map.get(cls, cls)
     if cls is float or (isinstance(cls, tuple) and float in cls):
         if isinstance(x, (SR, Fraction)):
             return True
@@ -594,6 +599,9 @@ class Loader:
             m = self.modules.get(".".join(parts[:i]))
             if m is not None and hasattr(m, name):
                 return getattr(m, name)
+        for m in list(self.modules.values()):
+            if name in getattr(m, "__dict__", {}):
+                return m.__dict__[name]
         return getattr(_bi, name)
 
     def original(self, q):
